@@ -39,7 +39,8 @@ package zuc
 //@   requires l != nil && br != nil && f != nil && wlength < 0x10000000
 //@   assigns l.s, br.x, f.r
 //@   specfuel 999
-//@   opaque ZucBR, ZucFW, ZucFNext, ZucLfsrWork, ZucRunIter
+//@   opaque ZucBR, ZucFW, ZucFNext, ZucLfsrWork
+//@   recursive ZucRunIter
 //@   loop 0 invariant 0 <= i && i <= int(wlength) && len(stream) == int(wlength)
 //@   loop 0 invariant l.s == spec.ZucRunIter(old(l.s), old(f.r), i).S
 //@   loop 0 invariant f.r == spec.ZucRunIter(old(l.s), old(f.r), i).R
